@@ -30,6 +30,9 @@ RULE = ("random programs P ::= skip | raise | use sym | seq | scope units P | at
         "and function arguments, the unit of the node holding a numerical expression, option lines and !options arrays, "
         "!condition and @case literals, modification and definition units, chained $unit) with the value oracle "
         "[name] = value x magnitude of its definition (accept and reject variants); "
+        "scopes (single, nested to 3 levels, with a failing inner registration) whose units come with conversion classes that "
+        "really convert (K = a*x + b) and converted VALUES taken inside, judged against the formula of the class registered "
+        "last among the open scopes (front of the model's UNIT_TYPES), linear when there is none; "
         "back-to-back scopes of equal size with different symbols and nothing evaluated in between (also two DIP parses); "
         "histories of explicit UnitEnvironment(...) / close() with overlapping lifetimes closed in any order "
         "(first-opened-first, arbitrary), shared and own conversion classes, failing constructions; "
